@@ -454,7 +454,8 @@ func (cm *clientMedia) writePacketRTCP(pkt rtcp.Packet) error {
 
 	maxPlainPacketSize := cm.c.MaxPacketSize
 	if cm.srtpOutCtx != nil {
-		maxPlainPacketSize -= srtcpOverhead
+		// the master key identifier, when there's one, is appended to every packet
+		maxPlainPacketSize -= srtcpOverhead + len(cm.srtpOutCtx.mki)
 	}
 
 	if len(buf) > maxPlainPacketSize {
